@@ -51,7 +51,7 @@ fn execute(sc: &Scenario, ctx: &mut Ctx) -> Learned {
     let vyr: Vec<&tensor::Tensor> = vy.iter().collect();
     let validation = if sc.val.is_some() { Some((&vxr, &vyr, sc.early_tol)) } else { None };
     ctx.op();
-    let (train, val_loss, val_acc) = net.learn(&xr, &yr, validation, sc.batch, sc.epochs, None);
+    let (train, val_loss, val_acc) = net.learn(&xr, &yr, validation, sc.batch, sc.epochs, sc.print);
     Learned { train, val_loss, val_acc, params: parameters(&net) }
 }
 
@@ -124,6 +124,7 @@ fn steerable(rng: &mut Rng) -> Scenario {
         acc_tol: 1e-3,
         pred: Vec::new(),
         init_params: Some(init),
+        print: if rng.chance(0.4) { Some(rng.pick(&[1i32, 2, 3, 5, 7, 50])) } else { None },
     }
 }
 
@@ -155,6 +156,7 @@ impl Property for C13 {
 
     fn required_probes(&self) -> Vec<&'static str> {
         vec![
+            "print_some_with_validation",
             "early_stop_fired",
             "ran_to_budget_with_validation",
             "equal_neighbours_in_window",
@@ -183,6 +185,9 @@ impl Property for C13 {
             }
             sc.early_tol = rng.range(1, 5) as i32;
             sc.epochs = rng.range(1, 12) as i32;
+            if rng.chance(0.4) {
+                sc.print = Some(rng.pick(&[1i32, 2, 3, 5, 7, 50]));
+            }
             sc
         };
         let (clock, _) = draw_clock(rng);
@@ -198,6 +203,7 @@ impl Property for C13 {
             stats.probe(p, false);
         }
         stats.probe("without_validation", sc.val.is_none());
+        stats.probe("print_some_with_validation", sc.val.is_some() && sc.print.is_some());
         stats.probe("tolerance_1", sc.val.is_some() && tol == 1);
         stats.probe("tolerance_ge_4", sc.val.is_some() && tol >= 4);
         stats.probe("budget_le_tolerance", sc.val.is_some() && budget <= tol);
